@@ -15,6 +15,7 @@ pub mod c13;
 pub mod c14;
 pub mod c15;
 pub mod c19;
+pub mod c20;
 
 pub fn get(id: &str) -> Option<Box<dyn Prop>> {
   match id {
@@ -34,6 +35,7 @@ pub fn get(id: &str) -> Option<Box<dyn Prop>> {
     "C14" => Some(Box::new(c14::C14)),
     "C15" => Some(Box::new(c15::C15)),
     "C19" => Some(Box::new(c19::C19)),
+    "C20" => Some(Box::new(c20::C20)),
     _ => None,
   }
 }
